@@ -117,16 +117,18 @@ def dump_state(rig: Rig):
         pos.append({"key": k, "name": p.instrument_name, "expiry": minutes(p.expiry_time), "strike": F(int(p.strike_price)),
                     "kind": p.type.value, "amount": F(p.amount), "avgBuy": F(p.avg_buy_price), "buyAmt": F(p.buy_amount),
                     "avgSell": F(p.avg_sell_price), "sellAmt": F(p.sell_amount)})
-    price = 0
+    price, price_dec = 0, False
     try:
-        price = F(float(m._price_status[rig.tok.name]))
+        pv = m._price_status[rig.tok.name]
+        price_dec = isinstance(pv, Decimal)
+        price = F(pv) if price_dec else F(float(pv))
     except Exception:
         pass
     return {
         "cash": F(m.balance), "positions": pos, "book": dump_book(m.market_status.data),
         "wallet": [[k.name, F(v.balance)] for k, v in rig.broker._assets.items()],
         "allowNeg": bool(rig.broker.allow_negative_balance), "cache": dump_balance(m._balance_cache),
-        "flagOpen": bool(m.is_open), "now": minutes(m.market_status.timestamp), "price": price,
+        "flagOpen": bool(m.is_open), "now": minutes(m.market_status.timestamp), "price": price, "priceDec": price_dec,
     }
 
 
@@ -449,3 +451,71 @@ def book_of(rig: Rig, name):
     if name not in df.index:
         return None
     return df.loc[name]
+
+
+# ------------------------------------------------------------------------------------------ bar loop (C16, C01)
+class _NoBar:
+    def __init__(self, *a, **k):
+        pass
+
+    def __enter__(self):
+        return self
+
+    def __exit__(self, *a):
+        return False
+
+    def update(self, *a, **k):
+        pass
+
+    def set_description(self, *a, **k):
+        pass
+
+
+_quiet = False
+
+
+def quiet():
+    """silence tqdm and logging of the real Actuator (UI only)"""
+    global _quiet
+    if _quiet:
+        return
+    import logging
+    import demeter.core.actuator as act
+    act.tqdm = _NoBar
+    logging.disable(logging.CRITICAL)
+    _quiet = True
+
+
+def uni_market(n_minutes, start=0, tick=200000):
+    """a real minutely UniLpMarket over synthetic, flat pool data (the co-market of C16/C01 runs)"""
+    from demeter import MarketInfo, TokenInfo
+    from demeter.uniswap import UniV3Pool, UniLpMarket
+    from demeter.uniswap.helper import _add_statistic_column
+    usdc, eth = TokenInfo("usdc", 6), TokenInfo("eth", 18)
+    pool = UniV3Pool(token0=usdc, token1=eth, fee=0.05, quote_token=usdc)
+    index = pd.date_range(ts_of(start), periods=n_minutes, freq="min")
+    df = pd.DataFrame(index=index)
+    df["netAmount0"] = [0] * n_minutes
+    df["netAmount1"] = [0] * n_minutes
+    t = pd.Series([tick] * n_minutes, index=index, dtype="int64")
+    for c in ("closeTick", "openTick", "lowestTick", "highestTick"):
+        df[c] = t
+    for c in ("inAmount0", "inAmount1"):
+        df[c] = pd.Series([Decimal(0)] * n_minutes, index=index, dtype=object)
+    df["currentLiquidity"] = pd.Series([Decimal(10 ** 18)] * n_minutes, index=index, dtype=object)
+    _add_statistic_column(df, pool)
+    m = UniLpMarket(MarketInfo("uni"), pool)
+    m.data = df
+    return m, usdc, eth
+
+
+def deribit_frame(hours):
+    """hours: list of (minute offset, instrs) -> the (time, instrument_name)-indexed frame of load_deribit_option_data"""
+    frames = []
+    for m, instrs in hours:
+        if not instrs:
+            continue
+        df = book_frame(instrs).reset_index()
+        df["time"] = ts_of(m)
+        frames.append(df)
+    return pd.concat(frames).set_index(["time", "instrument_name"]).sort_index()
